@@ -116,3 +116,104 @@ func FormatInt(v int) string {
 	}
 	return FormatUint(uint(v))
 }
+
+func lower(c byte) byte { return c | ('x' - 'X') }
+
+// underscoreOK is strconv's rule for underscores in base-prefixed literals.
+func underscoreOK(s string) bool {
+	i := rune('^')
+	k := 0
+	if len(s) >= 1 && (s[0] == '-' || s[0] == '+') {
+		s = s[1:]
+	}
+	hex := false
+	if len(s) >= 2 && s[0] == '0' && (lower(s[1]) == 'b' || lower(s[1]) == 'o' || lower(s[1]) == 'x') {
+		k = 2
+		i = '0'
+		hex = lower(s[1]) == 'x'
+	}
+	for ; k < len(s); k++ {
+		if '0' <= s[k] && s[k] <= '9' || hex && 'a' <= lower(s[k]) && lower(s[k]) <= 'f' {
+			i = '0'
+			continue
+		}
+		if s[k] == '_' {
+			if i != '0' {
+				return false
+			}
+			i = '_'
+			continue
+		}
+		if i == '_' {
+			return false
+		}
+		i = '!'
+	}
+	return i != '_'
+}
+
+// ParseUintBase models strconv.ParseUint(s, base, 64) for base 0 and 2..36.
+func ParseUintBase(s string, base int) (uint64, bool) {
+	if len(s) == 0 {
+		return 0, false
+	}
+	base0 := base == 0
+	s0 := s
+	switch {
+	case 2 <= base && base <= 36:
+	case base == 0:
+		base = 10
+		if s[0] == '0' {
+			switch {
+			case len(s) >= 3 && lower(s[1]) == 'b':
+				base = 2
+				s = s[2:]
+			case len(s) >= 3 && lower(s[1]) == 'o':
+				base = 8
+				s = s[2:]
+			case len(s) >= 3 && lower(s[1]) == 'x':
+				base = 16
+				s = s[2:]
+			default:
+				base = 8
+				s = s[1:]
+			}
+		}
+	default:
+		return 0, false
+	}
+	cutoff := (1<<64-1)/uint64(base) + 1
+	underscores := false
+	var n uint64
+	for i := 0; i < len(s); i++ {
+		c := s[i]
+		var d byte
+		switch {
+		case c == '_' && base0:
+			underscores = true
+			continue
+		case '0' <= c && c <= '9':
+			d = c - '0'
+		case 'a' <= lower(c) && lower(c) <= 'z':
+			d = lower(c) - 'a' + 10
+		default:
+			return 0, false
+		}
+		if d >= byte(base) {
+			return 0, false
+		}
+		if n >= cutoff {
+			return 0, false
+		}
+		n *= uint64(base)
+		n1 := n + uint64(d)
+		if n1 < n {
+			return 0, false
+		}
+		n = n1
+	}
+	if underscores && !underscoreOK(s0) {
+		return 0, false
+	}
+	return n, true
+}
